@@ -10,6 +10,8 @@ package checks
 // after each, the owner's view of every document the requester may not update is unchanged.
 
 import (
+	"crypto/sha256"
+	"encoding/hex"
 	"context"
 	"encoding/json"
 	"fmt"
@@ -381,6 +383,7 @@ type c10Case struct {
 	Cfg   int
 	Anon  bool
 	Steps []c10Step
+	Deep  bool // layout is the representative of its class under permutation of the three documents
 }
 
 func runC10(args []string) int {
@@ -431,7 +434,8 @@ func runC10(args []string) int {
 						init = append(init, c10Step{"grant-" + k, i})
 					}
 				}
-				cases = append(cases, c10Case{Cfg: ci, Anon: anon, Steps: init})
+				rank := map[string]int{"public": 0, "private": 1, "reader": 2, "writer": 3}
+				cases = append(cases, c10Case{Cfg: ci, Anon: anon, Steps: init, Deep: rank[l[0]] <= rank[l[1]] && rank[l[1]] <= rank[l[2]]})
 			}
 		}
 	}
@@ -477,7 +481,16 @@ func runC10(args []string) int {
 	st.outcomes.Range(func(k, v any) bool { no++; return true })
 	r.Coverage["evaluations"] = st.requests
 	r.Coverage["distinct_nontrivial"] = no
-	r.Coverage["rule"] = "2 index configurations x requester in {second identity, anonymous} x every layout of 3 documents over {public, private, private+reader, private+writer} x every history of <=d further steps over {grant/revoke reader/writer, owner update/delete, requester update/delete by id and by filter}; per state ~130 requests answered for the requester by the real database and by a twin that never held the unreadable documents; distinct = distinct (request kind, answer) pairs in states where at least one document is hidden from the requester"
+	if os.Getenv("VERIF_SHARD") != "" {
+		var keys []string
+		st.outcomes.Range(func(k, v any) bool {
+			h := sha256.Sum256([]byte(fmt.Sprint(k)))
+			keys = append(keys, hex.EncodeToString(h[:6]))
+			return true
+		})
+		r.Coverage["distinct_keys"] = keys
+	}
+	r.Coverage["rule"] = "2 index configurations x requester in {second identity, anonymous} x every layout of 3 documents over {public, private, private+reader, private+writer} x every history of <=d further steps (d=2: from one layout per class under permutation of the documents; d=1 from every layout) over {grant/revoke reader/writer, owner update/delete, requester update/delete by id and by filter}; per state ~130 requests answered for the requester by the real database and by a twin that never held the unreadable documents; distinct = distinct (request kind, answer) pairs in states where at least one document is hidden from the requester"
 	r.Coverage["worlds_real_plus_twin"] = st.worlds
 	r.Coverage["history_steps"] = st.steps
 	r.Coverage["requester_write_attempts"] = st.attempts
@@ -551,6 +564,9 @@ func c10Explore(r *rep.Run, st *c10Stats, c c10Case, depth int) error {
 	}
 	if err := c10Subscription(r, st, cfg, c.Anon, c.Steps); err != nil {
 		return err
+	}
+	if depth > 1 && !c.Deep {
+		depth = 1 // histories of two further steps only from one layout per permutation class
 	}
 	return rec(c.Steps, depth)
 }
